@@ -12,18 +12,29 @@ use crate::engine::json::Json;
 use crate::engine::report::{par_run, Chk, Report, Verdict};
 use crate::engine::smt::Answer;
 
-fn native_idx(a: &[f64], q: f64) -> Result<usize, String> {
+fn native_idx(a: &[f64], q: f64, view_kind: u8) -> Result<usize, String> {
     silence_panics();
-    let arr = Array1::from(a.to_vec());
-    std::panic::catch_unwind(|| arr.get_lower_index(q)).map_err(|_| "panic".to_string())
+    std::panic::catch_unwind(|| match view_kind {
+        0 => Array1::from(a.to_vec()).get_lower_index(q),
+        1 => {
+            let rev = Array1::from(a.iter().rev().copied().collect::<Vec<_>>());
+            rev.slice(ndarray::s![..;-1]).get_lower_index(q)
+        }
+        _ => {
+            let wide = Array1::from(a.iter().flat_map(|v| [*v, f64::NAN]).collect::<Vec<_>>());
+            wide.slice(ndarray::s![..;2]).get_lower_index(q)
+        }
+    })
+    .map_err(|_| "panic".to_string())
 }
 
-fn check_len(item: &(usize, u64)) -> Report {
-    let (n, timeout_ms) = *item;
+fn check_len(item: &(usize, u64, u8)) -> Report {
+    let (n, timeout_ms, view_kind) = *item;
     with_ctx(|c| c.reset_all());
     with_ctx(|c| c.mode = Mode::O);
     let mut chk = Chk::new(Mode::O, timeout_ms);
-    chk.begin_config(&format!("get_lower_index, symbolic axis of length {n}"));
+    let vname = ["owned contiguous array", "reversed view (stride -1) of reversed storage", "every-2nd-element view (stride 2)"][view_kind as usize];
+    chk.begin_config(&format!("get_lower_index, symbolic axis of length {n}, {vname}"));
     let x: Vec<Sym> = (0..n).map(|i| Sym::var(&format!("x{i}"))).collect();
     let q = Sym::var("q");
     let ecfg = ExploreCfg::new(Mode::O, n - 1);
@@ -32,7 +43,17 @@ fn check_len(item: &(usize, u64)) -> Report {
             Sym::assume_lt(x[i], x[i + 1]);
         }
         Sym::assume_not_nan(q);
-        Array1::from(x.clone()).get_lower_index(q)
+        match view_kind {
+            0 => Array1::from(x.clone()).get_lower_index(q),
+            1 => {
+                let rev: Array1<Sym> = Array1::from(x.iter().rev().copied().collect::<Vec<_>>());
+                rev.slice(ndarray::s![..;-1]).get_lower_index(q)
+            }
+            _ => {
+                let wide: Array1<Sym> = Array1::from(x.iter().flat_map(|v| [*v, Sym::var("junk")]).collect::<Vec<_>>());
+                wide.slice(ndarray::s![..;2]).get_lower_index(q)
+            }
+        }
     });
     chk.add_explore_stats(paths.len(), &st);
     let all_vars: Vec<String> = with_ctx(|c| c.var_names.clone());
@@ -64,7 +85,7 @@ fn check_len(item: &(usize, u64)) -> Report {
                     let m = crate::c05::model_f64(&vals);
                     let xs: Vec<f64> = (0..n).map(|k| *m.get(&format!("x{k}")).unwrap_or(&0.0)).collect();
                     let qv = *m.get("q").unwrap_or(&0.0);
-                    let nat = native_idx(&xs, qv);
+                    let nat = native_idx(&xs, qv, view_kind);
                     let ok = |r: usize| (if xs[0] <= qv && qv < xs[n - 1] { xs[r] <= qv && qv < xs[r + 1] } else { true }) && (if qv <= xs[0] { r == 0 } else { true }) && (if qv >= xs[n - 1] { r == n - 2 } else { true });
                     let reproduced = xs.windows(2).all(|w| w[0] < w[1]) && match &nat {
                         Ok(r) => *r > n - 2 || !ok(*r),
@@ -83,7 +104,7 @@ fn check_len(item: &(usize, u64)) -> Report {
                     let m = crate::c05::model_f64(&vals);
                     let xs: Vec<f64> = (0..n).map(|k| *m.get(&format!("x{k}")).unwrap_or(&0.0)).collect();
                     let qv = *m.get("q").unwrap_or(&0.0);
-                    let nat = native_idx(&xs, qv);
+                    let nat = native_idx(&xs, qv, view_kind);
                     // a panic for SOME in-range guess: only reproducible natively if the real guess takes that value
                     chk.finding("C11:panic-for-some-guess", &format!("length {n}: the search panics for an in-range guess: {msg}"), Json::obj().with("length", n).with("model", crate::c05::model_json(&m)).with("native_result", format!("{nat:?}")), Some(nat.is_err()));
                 }
@@ -125,9 +146,15 @@ fn check_len(item: &(usize, u64)) -> Report {
 pub fn run(args: &Args) -> Report {
     let nmax = if args.thorough() { 14 } else { 10 };
     let to = if args.thorough() { 120_000 } else { 20_000 };
-    let mut rep = par_run((2..=nmax).map(|n| (n, to)).collect::<Vec<(usize, u64)>>(), args.threads, check_len);
+    let mut items: Vec<(usize, u64, u8)> = (2..=nmax).map(|n| (n, to, 0u8)).collect();
+    // the same through views with negative and non-unit strides (lengths up to 8)
+    for n in 2..=nmax.min(8) {
+        items.push((n, to, 1));
+        items.push((n, to, 2));
+    }
+    let mut rep = par_run(items, args.threads, check_len);
     rep.functions.insert("vector_extensions::VectorExtensions::get_lower_index".into());
-    rep.bounds.push(format!("engine S: axis length 2..{nmax}, axis values and query all IEEE doubles under x_i < x_i+1 and q non-NaN (infinite queries included); the initial guess takes every index 0..=len-1"));
+    rep.bounds.push(format!("engine S: axis length 2..{nmax}, axis values and query all IEEE doubles under x_i < x_i+1 and q non-NaN (infinite queries included); owned arrays, and for lengths up to 8 also reversed (stride -1) and every-2nd-element views; the initial guess takes every index 0..=len-1"));
     rep.outside.push("lengths above the bounds (in particular the 10^4 of the quantifier text and the theoretical f32 guess overflow at n >= 2^23)".into());
     rep.assumptions.insert("mode O: comparisons bit-precise IEEE, arithmetic uninterpreted; that the cast of the real guess does not fail and yields an index in 0..=len-1 follows from the no-panic verdict by the engine K harnesses c11_lower_idx_* for the lengths listed there".into());
     rep
